@@ -1,6 +1,11 @@
 package main
 
 import (
+	"fmt"
+
+	"free5gclib/nas"
+	"free5gclib/nas/nasTestpacket"
+	"free5gclib/nas/security"
 	"stgutg"
 	"tglib"
 )
@@ -49,8 +54,51 @@ func init() {
 	}
 	// seccap: {ea, ia} -> capability octets advertised by a context using these algorithms
 	lineCmds["seccap"] = func(in map[string]interface{}) map[string]interface{} {
-		ue := tglib.NewRanUeContext("imsi-0", 1, uint8(num(in, "ea")), uint8(num(in, "ia")))
+		ue := tglib.NewRanUeContext("imsi-208930000000003", 1, uint8(num(in, "ea")), uint8(num(in, "ia")))
 		cap := ue.GetUESecurityCapability()
-		return map[string]interface{}{"cap": hx(cap.Buffer), "iei": cap.Iei, "len": cap.Len}
+		out := map[string]interface{}{"cap": hx(cap.Buffer), "iei": cap.Iei, "len": cap.Len}
+		// "advertises exactly the algorithms it WILL use": the capability goes out in the registration request, then the UE
+		// authenticates, then it protects its messages. Which algorithms protect them is found from the message itself.
+		if num(in, "ea") < 3 && num(in, "ia") < 3 {
+			func() {
+				defer func() {
+					if r := recover(); r != nil {
+						out["later_panic"] = fmt.Sprint(r)
+					}
+				}()
+				ue.AuthenticationSubs = tglib.GetAuthSubscription("465b5ce8b199b49faa5f0a2ee238a6bc", "cd63cb71954a9f4e48a5994e37a02baf", "")
+				var autn [16]byte
+				copy(autn[:], []byte{0x55, 0xf3, 0x28, 0xb4, 0x35, 0x77, 0xb9, 0xb9, 0x4a, 0x9f, 0xfa, 0xc3, 0x54, 0xdf, 0xaf, 0xb3})
+				rnd := []byte{0x23, 0x55, 0x3c, 0xbe, 0x96, 0x37, 0xa8, 0x9d, 0x21, 0x8a, 0xe6, 0x4d, 0xae, 0x47, 0xbf, 0x35}
+				ue.DeriveRESstarAndSetKey(ue.AuthenticationSubs, autn, rnd, "5G:mnc093.mcc208.3gppnetwork.org", "93", "208")
+				out["ea_after"], out["ia_after"] = int(ue.CipheringAlg), int(ue.IntegrityAlg)
+				cap2 := ue.GetUESecurityCapability()
+				out["cap_after"] = hx(cap2.Buffer)
+				if ue.IntegrityAlg == 0 {
+					return // under NIA0 the library sends no MAC at all (outside the supported pairs of C06): only the context is compared
+				}
+				plain := nasTestpacket.GetRegistrationComplete(nil)
+				pkt, err := tglib.EncodeNasPduWithSecurity(ue, plain, nas.SecurityHeaderTypeIntegrityProtectedAndCiphered, true, true)
+				if err != nil || len(pkt) < 7 {
+					out["later_err"] = fmt.Sprint(err)
+					return
+				}
+				iaUsed, eaUsed := -1, -1
+				for a := 0; a < 3; a++ {
+					mac, _ := security.NASMacCalculate(uint8(a), ue.KnasInt, 0, 1, 0, append([]byte{}, pkt[6:]...))
+					if (a == 0 && hx(pkt[2:6]) == "00000000") || (mac != nil && hx(mac) == hx(pkt[2:6])) {
+						if iaUsed < 0 {
+							iaUsed = a
+						}
+					}
+					body := append([]byte{}, pkt[7:]...)
+					if security.NASEncrypt(uint8(a), ue.KnasEnc, 0, 1, 0, body) == nil && hx(body) == hx(plain) && eaUsed < 0 {
+						eaUsed = a
+					}
+				}
+				out["ea_used"], out["ia_used"] = eaUsed, iaUsed
+			}()
+		}
+		return out
 	}
 }
